@@ -21,7 +21,7 @@ LEVEL_TEXT = (
     "cuts placed around escape octets / HCS / flags) x four reader configurations; returned frames must equal what the builder was "
     "given. Sampling, not proof."
 )
-RUNS = {"quick": 60000, "thorough": 600000}
+RUNS = {"quick": 60000, "thorough": 1500000}
 CHUNK = {"quick": 250, "thorough": 1000}
 BUDGET_S = {"quick": 90, "thorough": 1500}
 RULE = (
